@@ -72,8 +72,8 @@ class _LibraryState:
             out[k] = v
         return out
 
-    def __enter__(self):
-        self.saved = []
+    def capture(self):
+        saved = []
         for obj in self._targets():
             data = self._data(obj)
             copies = {}
@@ -83,13 +83,13 @@ class _LibraryState:
                         copies[k] = copy.deepcopy(v)
                     except Exception:
                         pass
-            self.saved.append((obj, data, copies))
-        return self
+            saved.append((obj, data, copies))
+        return saved
 
-    def __exit__(self, *a):
-        seen = set()
-        for obj, data, copies in self.saved:
-            seen.add(id(obj))
+    def restore(self, saved):
+        captured = set(id(obj) for obj, _, _ in saved)
+        # modules imported after the capture keep whatever they have; everything captured goes back
+        for obj, data, copies in saved:
             now = self._data(obj)
             for k in now:
                 if k not in data:
@@ -100,19 +100,46 @@ class _LibraryState:
             for k, v in data.items():
                 if k in copies:
                     # undo in-place mutation of a module-level container
+                    fresh = copy.deepcopy(copies[k])
                     if isinstance(v, dict):
                         v.clear()
-                        v.update(copies[k])
+                        v.update(fresh)
                     elif isinstance(v, list):
-                        v[:] = copies[k]
+                        v[:] = fresh
                     elif isinstance(v, set):
                         v.clear()
-                        v.update(copies[k])
+                        v.update(fresh)
                 if now.get(k, None) is not v:
                     try:
                         setattr(obj, k, v)
                     except Exception:
                         pass
+        return captured
+
+    def __enter__(self):
+        self.saved = self.capture()
+        return self
+
+    def __exit__(self, *a):
+        self.restore(self.saved)
+
+
+LIB = _LibraryState()
+_PRISTINE = {"snap": None}
+
+
+class pristine_library_state:
+    """Temporarily put the library's module/class-level data back to what it was when the current
+    run started (reference evaluations must not see caches filled earlier in the same history)."""
+
+    def __enter__(self):
+        self.cur = LIB.capture()
+        if _PRISTINE["snap"] is not None:
+            LIB.restore(_PRISTINE["snap"])
+        return self
+
+    def __exit__(self, *a):
+        LIB.restore(self.cur)
 
 
 def execute(engine, cs: ChoiceSource, tier: str, run_index: int) -> RunResult:
@@ -124,8 +151,12 @@ def execute(engine, cs: ChoiceSource, tier: str, run_index: int) -> RunResult:
 
     _np.random.seed(0)
     _pyrandom.seed(0)
-    with _LibraryState():
-        return engine.run(cs, tier, run_index)
+    with _LibraryState() as st:
+        _PRISTINE["snap"] = st.saved
+        try:
+            return engine.run(cs, tier, run_index)
+        finally:
+            _PRISTINE["snap"] = None
 
 
 def unknown_violations(violations, prop):
